@@ -1,4 +1,5 @@
 import XfemmVerif.Properties.C03
+import XfemmVerif.Properties.C05
 import Mathlib.Algebra.BigOperators.Group.Finset.Basic
 import Mathlib.Algebra.BigOperators.Ring.Finset
 import Mathlib.Tactic.Ring
@@ -65,5 +66,40 @@ theorem affine_patch_residual_zero (depth ex ey kludge c1 c2 : α) (rx ry : ℕ 
 example : ∑ k ∈ range 4, ((fun k : ℕ => ((![0, 1, 1, 0, 0] : Fin 5 → ℚ) ⟨k % 5, Nat.mod_lt _ (by norm_num)⟩)) k -
     (fun k : ℕ => ((![0, 1, 1, 0, 0] : Fin 5 → ℚ) ⟨k % 5, Nat.mod_lt _ (by norm_num)⟩)) (k + 1)) = 0 := by
   apply closed_fan_sum_zero; rfl
+
+/-! ### the time-harmonic magnetics element shares the patch property
+
+The stiffness part of the `Harmonic2D` model (`MHarmonic.harmStiff`, compared bit for bit with the real assembly) IS the shared element
+`ESolver.stiff` over the field `Cx K` with unit depth and the complex reluctivities `1/μ₂`, `1/μ₁` as coefficients.  The patch
+theorems above are stated over any field of characteristic zero, so they hold for it: in a region without conductivity the nodal
+interpolant of an affine (complex) potential satisfies the discrete time-harmonic equation of every interior node of a homogeneous
+patch exactly, on every mesh, for any complex anisotropic permeability. -/
+section Harmonic
+open XfemmVerif XfemmVerif.MHarmonic XfemmVerif.Cx
+set_option linter.unusedSectionVars false
+variable {K : Type} [Field K] [LinearOrder K] [IsStrictOrderedRing K] [AbsGt K] [LawfulAbsGt K]
+
+theorem harmStiff_eq_stiff (a : K) (mu1 mu2 : Cx K) (p q : V3 K) (j k : Fin 3) :
+    harmStiff (Cx.ofReal (-1 / (4 * a))) mu1 mu2 0 p q j k =
+      stiff (1 : Cx K) (1 / mu2) (1 / mu1) (Cx.ofReal a) 1 (fun i => Cx.ofReal (p i)) (fun i => Cx.ofReal (q i)) j k := by
+  rw [C05.harmStiff_form]
+  have e4 : (Cx.ofReal (4 : K) : Cx K) = 4 := Cx.ofReal_ofNat 4
+  rw [Cx.ofReal_div, Cx.ofReal_neg, Cx.ofReal_one, Cx.ofReal_mul, e4, Cx.ofReal_mul, Cx.ofReal_mul, mul_zero, add_zero]
+  unfold stiff
+  fin_cases j <;> fin_cases k <;> simp <;> ring
+
+/-- **patch test for the time-harmonic element**: for an affine complex potential the row of node `j` in one element is the flux of
+    `(c₁/μ₂, c₂/μ₁)` through the opposite side — and these cancel around a closed fan (`affine_patch_residual_zero` at `Cx K`) -/
+theorem harmonic_affine_element_row (mu1 mu2 : Cx K) (x y : V3 K) (c0 c1 c2 : Cx K)
+    (ha : area (shapeP (fun i => (Cx.ofReal (y i) : Cx K))) (shapeQ (fun i => (Cx.ofReal (x i) : Cx K))) ≠ 0) (j : Fin 3) :
+    let X : V3 (Cx K) := fun i => Cx.ofReal (x i)
+    let Y : V3 (Cx K) := fun i => Cx.ofReal (y i)
+    let u : V3 (Cx K) := fun k => c0 + c1 * X k + c2 * Y k
+    sum3 (fun k => stiff (1 : Cx K) (1 / mu2) (1 / mu1) (area (shapeP Y) (shapeQ X)) 1 (shapeP Y) (shapeQ X) j k * u k) =
+      -((1 : Cx K) / 1) * (1 / mu2 * c1 * shapeP Y j + 1 / mu1 * c2 * shapeQ X j) / 2 := by
+  intro X Y u
+  exact affine_element_row (1 : Cx K) (1 / mu2) (1 / mu1) 1 one_ne_zero X Y c0 c1 c2 ha j
+
+end Harmonic
 
 end XfemmVerif.C06
